@@ -10,8 +10,11 @@
   The constants the filter compares with (`dag.PayloadEventType`, `didnuts.DIDDocumentType`) and the classification
   condition are REGENERATED (Facts.C09.*), the driver instantiates `EntryCfg` with them.
 
-  Fault injection: `AddFault` = `didStore.Add` fails (with or without a `stoabs.ErrDatabase` wrapper). Every path of
-  `callback` ends in that one store call (`fact_store_calls`), so the faulty run is the normal run whose last step fails.
+  Fault injection (`AddFault`, with or without a `stoabs.ErrDatabase` wrapper) at the ambassador's own store handle:
+  * `didStore.Add` fails. Every path of `callback` ends in that one store call (`fact_store_calls`), so the faulty run
+    is the normal run whose last step fails.
+  * `didStore.Resolve` fails in `handleUpdateDIDDocument`'s loop over the transaction's prevs (position k) or in the
+    fallback lookup after it: the loop returns the error at once (regenerated fact `updateLookupErrorBranch`).
 -/
 import NutsModel.C09.Ambassador
 
@@ -42,26 +45,81 @@ def DagEvent.coherent (e : EntryCfg) (ev : DagEvent) : Prop :=
 def selectionFilter (e : EntryCfg) (ev : DagEvent) : Bool :=
   ev.evType == e.payloadEventType && ev.payloadType == e.didDocumentType
 
-/-- `didStore.Add` fails with an error named `name`; `isDb` = the error is (wraps) a `stoabs.ErrDatabase` -/
+/-- where the ambassador's own DID store handle (`n.didStore`) fails -/
+inductive FaultSite where
+  /-- `didStore.Add` fails -/
+  | add
+  /-- `didStore.Resolve(id, {AllowDeactivated, SourceTransaction: prev})` in the loop over `transaction.Previous()` of
+      `handleUpdateDIDDocument` fails at the prev positions `ks` (0-based); `fallback`: the latest-version lookup after
+      the loop fails as well -/
+  | lookup (ks : List Nat) (fallback : Bool)
+  deriving DecidableEq, Repr, Inhabited
+
+/-- a failing store call: error named `name`; `isDb` = the error is (wraps) a `stoabs.ErrDatabase` -/
 structure AddFault where
   name : String
   isDb : Bool
+  site : FaultSite := .add
   deriving DecidableEq, Repr, Inhabited
 
-def faultErr (f : AddFault) : String := "store:fault:" ++ f.name
+def faultErr (f : AddFault) : String :=
+  match f.site with
+  | .add => "store:fault:" ++ f.name
+  | .lookup _ _ => "update:resolve:fault:" ++ f.name
 
 /-- is this error of the model's own `storeAdd` (the real store refused the event)? -/
 def isStoreErr (e : String) : Bool := e.startsWith "store:"
 
-/-- `callback` run against a DID store whose `Add` fails: whatever reached `didStore.Add` gets the fault's error,
-    everything refused earlier is refused as before. (A panic inside the real `Add` cannot happen: it does not run.) -/
+/-- the steps of `callback` in front of `handleUpdateDIDDocument`: `some d` iff the delivery reaches it with document `d` -/
+def reachesUpdate (c : Cfg) (tx : Tx) (pd : Option NDoc) : Option NDoc :=
+  match checkTransactionIntegrity tx with
+  | .ok () =>
+    match pd with
+    | none => none
+    | some d =>
+      match validate c.thumb c.vmNilJwkErr c.validators d with
+      | .ok () => (match tx.embedded with | none => some d | some _ => none)
+      | _ => none
+  | _ => none
+
+/-- after the loop no version was found: the fallback lookup (latest version) is made -/
+def fallbackUsed (s : Store) (id : String) (prevs : List Nat) : Bool :=
+  match namedVersions s id prevs with
+  | .ok [] => true
+  | _ => false
+
+/-- does a failing lookup get executed? The loop visits EVERY prev (it does not stop at the first version found) and
+    returns the first error that is not not-found; the fallback lookup runs only when the loop found nothing -/
+def lookupHit (s : Store) (id : String) (prevs : List Nat) (ks : List Nat) (fallback : Bool) : Bool :=
+  ks.any (fun k => decide (k < prevs.length)) || (fallback && fallbackUsed s id prevs)
+
+/-- does the fault fire in this delivery (when it reaches the faulty call at all)? -/
+def faultHit (c : Cfg) (s : Store) (tx : Tx) (pd : Option NDoc) : Option AddFault → Bool
+  | none => false
+  | some f =>
+    match f.site with
+    | .add => true
+    | .lookup ks fb =>
+      match reachesUpdate c tx pd with
+      | some d => lookupHit s d.id tx.prevs ks fb
+      | none => false
+
+/-- `callback` run against a faulty DID store.
+    `add`: whatever reached `didStore.Add` gets the fault's error, everything refused earlier is refused as before
+    (a panic inside the real `Add` cannot happen: it does not run).
+    `lookup`: a delivery that reaches `handleUpdateDIDDocument` and executes a failing lookup returns that error at once
+    (`unable to update DID document: %w`) — before controllers, key and authorisation are looked at; otherwise as before. -/
 def callbackF (c : Cfg) (s : Store) (tx : Tx) (pd : Option NDoc) : Option AddFault → Res Store
   | none => callback c s tx pd
   | some f =>
-    match callback c s tx pd with
-    | .ok _ => .err (faultErr f)
-    | .err e => if isStoreErr e then .err (faultErr f) else .err e
-    | .panic x => .panic x
+    match f.site with
+    | .add =>
+      match callback c s tx pd with
+      | .ok _ => .err (faultErr f)
+      | .err e => if isStoreErr e then .err (faultErr f) else .err e
+      | .panic x => .panic x
+    | .lookup _ _ =>
+      if faultHit c s tx pd (some f) then .err (faultErr f) else callback c s tx pd
 
 /-- what `handleNetworkEvent` returns to the notifier -/
 inductive Ack where
@@ -104,11 +162,5 @@ def notify (e : EntryCfg) (fatalUnlessDb : Bool) (c : Cfg) (s : Store) (ev : Dag
 def notifyAll (e : EntryCfg) (fatalUnlessDb : Bool) (c : Cfg) : Store → List (DagEvent × Option AddFault) → Store
   | s, [] => s
   | s, p :: ps => notifyAll e fatalUnlessDb c (notify e fatalUnlessDb c s p.1 p.2).1 ps
-
-/-- the events of a stream that reach `callback` with a working store, as (transaction, payload) pairs -/
-def passed (e : EntryCfg) : List (DagEvent × Option AddFault) → List (Tx × Option NDoc)
-  | [] => []
-  | p :: ps =>
-    if selectionFilter e p.1 && p.2.isNone then (p.1.tx, p.1.payload) :: passed e ps else passed e ps
 
 end Nuts.C09
